@@ -1,1 +1,78 @@
-/-! Property theorems for C19 (see /verif/DESIGN.md). Only property theorems and non-vacuity examples live here. -/
+import Props.C16
+import Proofs.C19Order
+import GoawkModel.Generated.C19Maps
+import GoawkModel.Generated.C19Writes
+/-! Property theorems for C19 — parsing is deterministic; a parsed Program is immutable and shareable.
+Determinism is a theorem about the resolver model of C16 with every Go map iteration made an explicit parameter.
+Immutability is carried by two regenerated source facts (no statement of package interp writes through the shared Program;
+every map iteration in resolver/compiler/parser is of an order-insensitive class); data races and heap aliasing are runtime
+behaviour and are supported by search only (harness/c19). -/
+namespace GoawkModel.C16
+
+/-- Parsing is deterministic: whatever order Go iterates its maps in, the resolver returns the same result — the same
+type tables, or the same error raised at the same place. -/
+theorem parse_deterministic (p : Program) (i₁ i₂ : List Name → List Name) (h₁ : IsIter i₁) (h₂ : IsIter i₂) :
+    parse i₁ p = parse i₂ p := by
+  simp only [parse]
+  rw [goOrder_iter h₁ h₂]
+
+/-- The function walk order itself does not depend on map iteration. -/
+theorem order_deterministic (p : Program) (i₁ i₂ : List Name → List Name) (h₁ : IsIter i₁) (h₂ : IsIter i₂) :
+    goOrder i₁ p = goOrder i₂ p := goOrder_iter h₁ h₂ p
+
+/-- Go's walk order visits every function, so the C16 theorems apply to what `ParseProgram` does. -/
+theorem parse_covers (p : Program) (iter : List Name → List Name) : Covers (goOrder iter p) p := goOrder_covers iter p
+
+/-- What `ParseProgram` does is exact whatever the map iteration order: accepted iff a consistent typing exists. -/
+theorem parse_exact (p : Program) (iter : List Name → List Name) (wf : WF p) (hb : p.builtins ≠ []) :
+    (∃ s, parse iter p = .ok s) ↔ Consistent p :=
+  resolve_exact p (goOrder iter p) wf hb (goOrder_covers iter p)
+
+/-! ### regenerated source facts -/
+
+/-- every `range` over a map in internal/resolver, internal/compiler, parser: file, function, expression, body class -/
+def expectedMapRanges : List (String × String × String × String) := [
+  ("internal/resolver/resolve.go", "ResolvedProgram.IterVars", "r.resolver.varInfo[funcName]", "callback"),
+  ("internal/resolver/resolve.go", "ResolvedProgram.IterFuncs", "r.resolver.funcInfo", "callback"),
+  ("internal/resolver/resolve.go", "Resolve", "config.Funcs", "collect-then-sort"),
+  ("internal/resolver/resolve.go", "Resolve", "funcInfo", "per-key"),
+  ("internal/resolver/resolve.go", "Resolve", "r.varInfo", "per-key"),
+  ("internal/resolver/resolve.go", "Resolve", "r.varInfo", "per-key"),
+  ("internal/resolver/resolve.go", "Resolve", "infos", "per-key"),
+  ("internal/resolver/resolve.go", "Resolve", "r.varInfo", "per-key"),
+  ("internal/resolver/resolve.go", "Resolve", "infos", "collect-then-sort"),
+  ("internal/resolver/resolve.go", "printVarTypes", "varInfo", "collect-then-sort"),
+  ("internal/resolver/resolve.go", "printVarTypes", "varInfo[funcName]", "collect-then-sort"),
+  ("internal/resolver/toposort.go", "sortedKeys", "m", "collect-then-sort"),
+  ("parser/parser.go", "parser.checkMultiExprs", "p.multiExprs", "min-reduce")]
+
+/-- the closures handed to IterVars / IterFuncs (they see the entries in map order) -/
+def expectedIterCallbacks : List (String × String × String × String) := [
+  ("internal/compiler/compiler.go", "Compile", "IterVars", "per-key"),
+  ("internal/compiler/compiler.go", "Compile", "IterFuncs", "per-key"),
+  ("interp/interp.go", "newInterp", "IterVars", "per-key")]
+
+theorem gen_matches_mapRanges : Generated.C19Maps.mapRanges = expectedMapRanges := by decide
+theorem gen_matches_iterCallbacks : Generated.C19Maps.iterCallbacks = expectedIterCallbacks := by decide
+
+/-- no map iteration of the front end has an order-sensitive body -/
+theorem no_order_sensitive_range :
+    ∀ e ∈ Generated.C19Maps.mapRanges ++ Generated.C19Maps.iterCallbacks, e.2.2.2 ≠ "order-sensitive" := by decide
+
+/-- no statement of package interp writes through the shared Program -/
+theorem gen_matches_programWrites : Generated.C19Writes.programWrites = [] := by decide
+
+/-! ### non-vacuity: three functions with independent type errors (the F22 witness shape); reversing or rotating every map
+iteration reports the same error at the same place -/
+
+def exF22 : Program :=
+  { funcs := [⟨7, [4], [.use 4 .array, .use 4 .scalar]⟩, ⟨5, [4], [.use 4 .array, .use 4 .scalar]⟩,
+              ⟨6, [4], [.use 4 .array, .use 4 .scalar]⟩],
+    main := [.call 6 0, .call 5 0], specials := [], builtins := [1, 2, 3] }
+
+example : IsIter List.reverse := fun l => List.reverse_perm l
+example : parse id exF22 = .error (5, 1, .useAs .array 4 .scalar) := rfl
+example : parse List.reverse exF22 = .error (5, 1, .useAs .array 4 .scalar) := rfl
+example : goOrder id exF22 = [5, 6, 0, 7] := by decide
+
+end GoawkModel.C16
